@@ -43,6 +43,8 @@ func (x *Exec) runDeferList(s *State, ds []*ssa.Defer, i int, then func(*State))
 		name := fn.Name()
 		if r := fn.Signature.Recv(); r != nil && typeStr(r.Type()) == "*sync.RWMutex" && len(args) == 1 {
 			x.lockOp(s, d, name, args[0])
+		} else if fn.String() == "(*sync.Pool).Put" {
+			x.poolPut(s, d, args)
 		} else {
 			x.unsupported("deferred library call %s", fn.String())
 		}
